@@ -25,9 +25,10 @@ def noDead : Stmt → Bool
   | .for_ _ st b => st.isSimple && noDead b
   | _ => true
 
-/-- Types of the objects a statement declares, in the order of the `alloc`s. -/
-def declTys : Stmt → List CSem.Ty
-  | .decl _ t _ => [t]
+/-- Types and element counts of the objects a statement declares, in the order of the `alloc`s. -/
+def declTys : Stmt → List (CSem.Ty × Nat)
+  | .decl _ t _ => [(t, 1)]
+  | .adecl _ t n _ => [(t, n)]
   | .seq a b => declTys a ++ declTys b
   | .ite _ a => declTys a
   | .itee _ a b => declTys a ++ declTys b
@@ -145,6 +146,28 @@ theorem lowerArgs_good (cs : Bool) (σ : List Nat) (es : List Expr) :
     · intro ol pre hp
       rw [← List.append_assoc]
       exact cur2 ol _ (g.cur ol pre hp)
+
+/-- the address of an array element: the offset expression, then one `add` -/
+theorem lowerAddr_good (cs : Bool) (σ : List Nat) (c : Ctx) (slot : Nat) (t : CSem.Ty) (idx : Expr) :
+    c.lastid ≤ (lowerAddr cs σ c slot t idx).ctx.lastid ∧ c.blockid ≤ (lowerAddr cs σ c slot t idx).ctx.blockid ∧
+      LabelsIn (fun j => c.blockid < j ∧ j ≤ (lowerAddr cs σ c slot t idx).ctx.blockid)
+        (itemLabels (lowerAddr cs σ c slot t idx).items) ∧
+      (∀ (ol : Open) (pre : List Item), curOf ol pre = c.cur →
+        curOf ol (pre ++ (lowerAddr cs σ c slot t idx).items) = (lowerAddr cs σ c slot t idx).ctx.cur) ∧
+      (CurOK c → CurOK (lowerAddr cs σ c slot t idx).ctx) := by
+  have g := funcexpr2_good cs σ (offOf t idx) c
+  simp only [lowerAddr, Out.seq, funcinst]
+  have l1 := g.lastid; have b1 := g.blockid
+  refine ⟨by show c.lastid ≤ _ + 1; omega, b1, ?_, ?_, ?_⟩
+  · rw [itemLabels_append]
+    simp only [itemLabels, List.append_nil]
+    exact g.labels
+  · intro ol pre hp
+    rw [← List.append_assoc, curOf_ins]
+    exact g.cur ol pre hp
+  · intro hc
+    obtain ⟨name, j, h1, h2⟩ := g.curOK hc
+    exact ⟨name, j, h1, h2⟩
 
 /-- counters and labels of the `casesearch` ladder -/
 theorem ladder_good (w : Bool) (v : Val) (lab : Nat → String) (dl : String) (t : Tree.T) :
@@ -859,6 +882,82 @@ theorem funcstmt_good' (cs : Bool) (st : Stmt) : ∀ (brk cont : String) (c : SC
       · intro hc
         obtain ⟨name, j, h1, h2⟩ := ok1 hc
         exact ⟨name, j, by unf; rw [c3]; exact h1, by unf; omega⟩
+
+  | adecl i t n xb =>
+    intro brk cont c hj0 _
+    have hj : c.jump = none := by
+      rcases hj0 with h | h
+      · exact h
+      · simp [Stmt.startsLabel] at h
+    clear hj0
+    refine ⟨Nat.le_succ _, Nat.le_refl _, LabelsIn.nil _, fun ol pre h => by simpa [funcstmt] using h,
+      id, fun _ => hj, fun new h => sorted_of_eq (new' := [c.lastid + 1]) h (List.pairwise_singleton _ _), [c.lastid + 1], rfl, rfl, ?_, rfl⟩
+    intro sl hsl
+    simp only [List.mem_singleton] at hsl
+    subst hsl
+    exact ⟨Nat.lt_succ_self _, Nat.le_refl _⟩
+  | aload dst dt arr t n xb idx =>
+    intro brk cont c hj0 _
+    have hj : c.jump = none := by
+      rcases hj0 with h | h
+      · exact h
+      · simp [Stmt.startsLabel] at h
+    clear hj0
+    obtain ⟨l1, b1, lab1, cur1, ok1⟩ := lowerAddr_good cs c.slots c.ctx (c.slots.getD arr 0) t idx
+    simp only [funcstmt, funcopen_none hj, List.nil_append]
+    generalize hoa : lowerAddr cs c.slots c.ctx (c.slots.getD arr 0) t idx = oa at l1 b1 lab1 cur1 ok1 ⊢
+    unf at l1 b1
+    have s2 := funcinst_straight oa.ctx (.load (loadOf cs t)) (cls t) [oa.val]
+    generalize hol : funcinst oa.ctx (.load (loadOf cs t)) (cls t) [oa.val] = ol at s2 ⊢
+    have s3 : Straight ol.ctx (if dt = t then ⟨[], ol.val, ol.ctx⟩ else convert cs ol.ctx dt t ol.val) := by
+      split
+      · exact Straight.refl _ _
+      · exact convert_straight _ _ _ _ _
+    generalize hov : (if dt = t then (⟨[], ol.val, ol.ctx⟩ : Out) else convert cs ol.ctx dt t ol.val) = ov
+      at s3 ⊢
+    have l2 := s2.lastid; have b2 := s2.blockid; have c2 := s2.cur
+    have l3 := s3.lastid; have b3 := s3.blockid; have c3 := s3.cur
+    refine ⟨by unf; omega, by unf; omega, ?_, ?_, ?_, fun _ => hj,
+      fun new h => sorted_of_eq (new' := []) (by rw [List.append_nil]; exact h) List.Pairwise.nil,
+      [], by simp, rfl, by simp, rfl⟩
+    · simp only [itemLabels_append, itemLabels, storeIns, itemLabels_allIns _ s2.allIns,
+        itemLabels_allIns _ s3.allIns, List.append_nil]
+      exact lab1.weaken (by intro j h; unf at h ⊢; omega)
+    · intro ol' pre hp
+      simp only [← List.append_assoc, storeIns]
+      rw [curOf_ins, curOf_append_allIns _ _ _ s3.allIns, curOf_append_allIns _ _ _ s2.allIns]
+      unf
+      rw [c3, c2]
+      exact cur1 ol' pre hp
+    · intro hc
+      obtain ⟨name, j, h1, h2⟩ := ok1 hc
+      exact ⟨name, j, by unf; rw [c3, c2]; exact h1, by unf; omega⟩
+  | astore arr t n xb idx e =>
+    intro brk cont c hj0 _
+    have hj : c.jump = none := by
+      rcases hj0 with h | h
+      · exact h
+      · simp [Stmt.startsLabel] at h
+    clear hj0
+    have g := exprOut_good cs c e
+    simp only [funcstmt, lowerE_eq cs hj]
+    obtain ⟨l1, b1, lab1, cur1, ok1⟩ := lowerAddr_good cs (c.upd (exprOut cs c e).ctx).slots
+      (c.upd (exprOut cs c e).ctx).ctx (c.slots.getD arr 0) t idx
+    generalize hoa : lowerAddr cs (c.upd (exprOut cs c e).ctx).slots (c.upd (exprOut cs c e).ctx).ctx
+      (c.slots.getD arr 0) t idx = oa at l1 b1 lab1 cur1 ok1 ⊢
+    have gl := g.lastid; have gb := g.blockid
+    unf at l1 b1 gl gb
+    refine ⟨by unf; omega, by unf; omega, ?_, ?_, ?_, fun _ => hj,
+      fun new h => sorted_of_eq (new' := []) (by rw [List.append_nil]; exact h) List.Pairwise.nil,
+      [], by simp, rfl, by simp, rfl⟩
+    · simp only [itemLabels_append, itemLabels, List.append_nil]
+      exact (g.labels.append lab1 (by intro j h1 h2; unf at h1 h2; omega)).weaken
+        (by intro j h; unf at h ⊢; omega)
+    · intro ol' pre hp
+      rw [← List.append_assoc, ← List.append_assoc, curOf_ins]
+      exact cur1 ol' _ (g.cur ol' pre hp)
+    · intro hc
+      exact ok1 (g.curOK hc)
 
 /-- the statement starts in a block without pending jump -/
 theorem funcstmt_good (cs : Bool) (st : Stmt) (brk cont : String) (c : SCtx) (hj : c.jump = none)
